@@ -31,7 +31,8 @@ ENGINE = "exhaustive enumeration over GF(q)^3 / GF(q)^6 + hypothesis on the real
 TECHNIQUE = ("polynomial identity testing by exhaustive enumeration of all coordinate tuples over small fields + property-based testing (Hypothesis) under random scalings on the real fields")
 REQUIRED_LABELS = {t: ["A:add:generic", "A:add:double_via_add", "A:add:inverse", "A:add:inf_operand",
                        "A:line:chord", "A:line:tangent", "A:line:vertical", "A:jac:generic",
-                       "A:jac:double_via_add", "B:add:double_via_add", "B:add:inverse", "B:inf_rep:(0,0,0)",
+                       "A:jac:double_via_add", "B:add:double_via_add", "B:add:inverse", "B:add:same_y_other_x", "B:add:opposite_y_other_x",
+                       "B:jac:endo+0", "B:jac:endo-1", "B:inf_rep:(0,0,0)",
                        "B:line", "B:jac"] for t in ("quick", "thorough")}
 CURVE_MODS = ("optimized_bls12_381", "optimized_bn128")
 
@@ -370,6 +371,10 @@ def o_real(ctx, case):
         Q = None
     elif rel == "infboth":
         P = Q = None
+    elif rel.startswith("endo") and P is not None:
+        # same (opposite) y, different x: the image of P under (x, y) -> (beta x, +-y)
+        beta = nt.cube_roots_of_unity(C.p)[int(rel[5])]
+        Q = (F.smul(P[0], beta), P[1] if rel[4] == "+" else F.neg(P[1]))
     else:
         Q = _model_point(M, g, case["k2"], case["t2"])
     s1, s2 = _scale(M, g, case["s1"]), _scale(M, g, case["s2"])
@@ -425,6 +430,8 @@ def o_real(ctx, case):
         ctx.label("B:add:double_via_add" if s1 != s2 else "B:add:double_same_rep")
     elif rel == "inverse":
         ctx.label("B:add:inverse")
+    elif rel.startswith("endo"):
+        ctx.label("B:add:same_y_other_x" if rel[4] == "+" else "B:add:opposite_y_other_x"); nt_ = True
     elif rel.startswith("inf"):
         ctx.label("B:add:inf_operand")
         for k in ("inf1", "inf2"):
@@ -454,6 +461,8 @@ def o_jac_real(ctx, case):
     A = SECP.mul(SECP.g, case["k1"] % N)
     rel = case["rel"]
     B = A if rel == "same" else SECP.neg(A) if rel == "inverse" else SECP.mul(SECP.g, case["k2"] % N)
+    if rel.startswith("endo"):
+        B = (A[0] * nt.cube_roots_of_unity(Pm)[int(rel[5])] % Pm, A[1] if rel[4] == "+" else Pm - A[1])
     if rel == "inf1":
         A = None
     if rel == "inf2":
@@ -493,7 +502,8 @@ def s_real(module, g):
     return st.fixed_dictionaries({
         "k1": scalar_in(1, r - 1), "k2": scalar_in(1, r - 1),
         "t1": st.sampled_from([0, 0, 1, 2, 3]), "t2": st.sampled_from([0, 0, 1, 5]),
-        "rel": st.sampled_from(["free", "free", "same", "same", "inverse", "inf1", "inf2", "infboth"]),
+        "rel": st.sampled_from(["free", "free", "same", "same", "inverse", "inf1", "inf2", "infboth",
+                                "endo+0", "endo+1", "endo-0", "endo-1"]),
         "s1": st.one_of(st.just(1), uniform_int(2, p - 1), st.sampled_from([2, p - 1])),
         "s2": st.one_of(st.just(1), uniform_int(2, p - 1), st.sampled_from([3, p - 2])),
         "inf1": st.sampled_from(list(INF_REPS)), "inf2": st.sampled_from(list(INF_REPS)),
@@ -503,8 +513,8 @@ def s_real(module, g):
 def t_real(ctx, module, g, shard, n):
     ex = []
     if shard == 0:
-        for rel in ("same", "inverse", "inf1", "inf2", "infboth", "free"):
-            for inf in INF_REPS:
+        for rel in ("same", "inverse", "inf1", "inf2", "infboth", "free", "endo+0", "endo+1", "endo-0", "endo-1"):
+            for inf in (INF_REPS if not rel.startswith("endo") else list(INF_REPS)[:1]):
                 ex.append({"module": module, "g": g, "k1": 5, "k2": 9, "t1": 0, "t2": 0, "rel": rel, "s1": 7,
                            "s2": 11, "inf1": inf, "inf2": "own" if inf != "(0,0,0)" else "(0,1,0)"})
     drive(ctx, f"real-{module}-{g}-{shard}", s_real(module, g), lambda c: o_real(ctx, c), n, ex,
@@ -515,9 +525,10 @@ def t_jac_real(ctx, shard, n):
     N, Pm = SECP.n, SECP.p
     strat = st.fixed_dictionaries({
         "k1": scalar_in(1, N - 1), "k2": scalar_in(1, N - 1),
-        "rel": st.sampled_from(["free", "same", "same", "inverse", "inf1", "inf2"]),
+        "rel": st.sampled_from(["free", "same", "same", "inverse", "inf1", "inf2", "endo+0", "endo+1", "endo-0", "endo-1"]),
         "s1": st.one_of(st.just(1), uniform_int(2, Pm - 1)), "s2": st.one_of(st.just(1), uniform_int(2, Pm - 1))})
-    ex = [{"k1": 3, "k2": 3, "rel": rel, "s1": 5, "s2": 9} for rel in ("free", "same", "inverse", "inf1", "inf2")]
+    ex = [{"k1": 3, "k2": 3, "rel": rel, "s1": 5, "s2": 9} for rel in ("free", "same", "inverse", "inf1", "inf2",
+                                                                      "endo+0", "endo+1", "endo-0", "endo-1")]
     drive(ctx, f"jac{shard}", strat, lambda c: o_jac_real(ctx, c), n, ex if shard == 0 else ())
 
 
